@@ -3,6 +3,7 @@ import XzVerif.Proofs.ReadLoops
 import XzVerif.Proofs.LazyDec
 import XzVerif.Proofs.Fuel
 import XzVerif.Proofs.LazyDec2
+import XzVerif.Proofs.LazyXz
 /-
   C13 — Decoded output is independent of read sizes and source fragmentation; EOF is stable.
 
@@ -35,8 +36,13 @@ import XzVerif.Proofs.LazyDec2
   ring shared by compressed and uncompressed chunks, `Reset()` clearing only the head counter, the uncompressed reader
   copying in pieces of `Available()`, a lazy decoder per chunk limited to the declared compressed bytes, the stored
   error) refines the batch LZMA2 reader for every input and schedule: `C13_lazy2_*` (`Proofs/LazyDec2*.lean`,
-  `RingD.lean`: the ring relation after a dictionary reset; 1 800 lines).  The xz reader (`Model/LazyXz.lean`) is
-  modelled and tied call by call; its refinement proof is in progress.
+  `RingD.lean`: the ring relation after a dictionary reset; 1 800 lines).  **The xz reader** (`Model/LazyXz.lean`:
+  `Reader.Read` with the multi-stream / padding / SingleStream logic, `streamReader.Read`, `blockReader.Read` with its size
+  checks on every call, padding and check verification, index records, `readTail`) refines the batch xz reader in the
+  same sense: `C13_lazyxz_*` (`Proofs/LazyXz*.lean`, `LazyDec2Pos.lean`, 1 900 lines).  Errors agree only as "error vs
+  clean end": the proof exposed two corners in which the BATCH model names a different error than the Go reader (it
+  counts bytes decoded but never delivered, and the position before a half-read chunk header); both inputs are kept as
+  evaluated `#guard`s next to the theorem, the lazy model agrees with Go on them.
 -/
 namespace Props.C13
 open ReadLoop
@@ -327,5 +333,59 @@ open LazyDec LazyDec2 in
 theorem C13_lazy2_never_no_space (cfgCap : Nat) (hcap : 4096 ≤ effCap cfgCap) (inp : ByteArray) (lens : List Nat) :
     ∀ r ∈ LazyDec2.readSeq (newReader2 cfgCap inp) lens, r.2 ≠ .err .noSpace ∧ r.2 ≠ .err .lenRange ∧ r.2 ≠ .err .panic :=
   LazyDec2.never_noSpace cfgCap hcap inp lens
+
+/-! ### the lazy xz reader refines the batch xz reader (Model/LazyXz.lean), unconditionally -/
+
+open LazyDec LazyXz in
+/-- **Independence of the read sizes for the xz reader, every input**: two schedules of buffer lengths that both run into
+    `io.EOF` deliver the same bytes — the batch reader's output, which ends cleanly (multi-stream or SingleStream). -/
+theorem C13_lazyxz_schedule_independent (cfgCap : Nat) (single : Bool) (inp : ByteArray) (x : X)
+    (h : LazyXz.newReader cfgCap single inp = .ok x) (lens1 lens2 : List Nat)
+    (h1 : LazyXz.lastStat (LazyXz.readSeq x lens1) = .eof) (h2 : LazyXz.lastStat (LazyXz.readSeq x lens2) = .eof) :
+    delivered (LazyXz.readSeq x lens1) = delivered (LazyXz.readSeq x lens2) ∧
+    delivered (LazyXz.readSeq x lens1) = (LazyXz.batch cfgCap single inp).out ∧
+    (LazyXz.batch cfgCap single inp).status = .eof := by
+  have hf : (LazyXz.batch cfgCap single inp).status ≠ .err "fuel exhausted" := Fuel.xz_read_fuel _ _ _ _
+  have e1 := LazyXz.eof_complete cfgCap single inp x h lens1 hf h1
+  have e2 := LazyXz.eof_complete cfgCap single inp x h lens2 hf h2
+  exact ⟨by rw [e1.2, e2.2], e1.2, e1.1⟩
+
+open LazyDec LazyXz in
+theorem C13_lazyxz_delivered_prefix (cfgCap : Nat) (single : Bool) (inp : ByteArray) (x : X)
+    (h : LazyXz.newReader cfgCap single inp = .ok x) (lens : List Nat) :
+    let out := (LazyXz.batch cfgCap single inp).out
+    (delivered (LazyXz.readSeq x lens)).size ≤ out.size ∧
+    delivered (LazyXz.readSeq x lens) = out.extract 0 (delivered (LazyXz.readSeq x lens)).size :=
+  LazyXz.delivered_prefix cfgCap single inp x h lens (Fuel.xz_read_fuel _ _ _ _)
+
+open LazyDec LazyXz in
+theorem C13_lazyxz_call_sizes (cfgCap : Nat) (single : Bool) (inp : ByteArray) (x : X)
+    (h : LazyXz.newReader cfgCap single inp = .ok x) (lens : List Nat) :
+    (LazyXz.readSeq x lens).length ≤ lens.length ∧
+    ∀ i (hi : i < (LazyXz.readSeq x lens).length),
+      ((LazyXz.readSeq x lens)[i]).1.size ≤ lens[i]! ∧
+      (((LazyXz.readSeq x lens)[i]).2 = .ok → ((LazyXz.readSeq x lens)[i]).1.size = lens[i]!) :=
+  LazyXz.call_sizes cfgCap single inp x h lens
+
+open LazyDec LazyXz in
+theorem C13_lazyxz_reaches_eof (cfgCap : Nat) (single : Bool) (inp : ByteArray) (x : X)
+    (h : LazyXz.newReader cfgCap single inp = .ok x) (lens : List Nat)
+    (hclean : (LazyXz.batch cfgCap single inp).status = .eof) (hsum : (LazyXz.batch cfgCap single inp).out.size < lens.sum) :
+    LazyXz.lastStat (LazyXz.readSeq x lens) = .eof :=
+  LazyXz.reaches_eof cfgCap single inp x h lens hclean hsum
+
+open LazyDec LazyXz in
+/-- an error of the lazy reader is an error of the batch reader (never a clean end) -/
+theorem C13_lazyxz_error_is_error (cfgCap : Nat) (single : Bool) (inp : ByteArray) (x : X)
+    (h : LazyXz.newReader cfgCap single inp = .ok x) (lens : List Nat) (e : Err)
+    (he : LazyXz.lastStat (LazyXz.readSeq x lens) = .err e) :
+    (LazyXz.batch cfgCap single inp).status ≠ .eof :=
+  LazyXz.err_agrees cfgCap single inp x h lens e he
+
+open LazyDec LazyXz in
+theorem C13_lazyxz_never_no_space (cfgCap : Nat) (single : Bool) (inp : ByteArray) (x : X)
+    (h : LazyXz.newReader cfgCap single inp = .ok x) (lens : List Nat) :
+    ∀ r ∈ LazyXz.readSeq x lens, r.2 ≠ .err .noSpace ∧ r.2 ≠ .err .lenRange ∧ r.2 ≠ .err .panic :=
+  LazyXz.never_noSpace cfgCap single inp x h lens
 
 end Props.C13
